@@ -2,8 +2,9 @@
   C10, shared helper lemmas (used by Props/C10Full.lean -- acceptance with optional entries -- and by
   Props/C10Rules.lean -- the rejection half):
 
-  1. rendered dictionaries as `dictOfList (optPairs rows)` with a fixed, duplicate-free list of keys; `get`, `set`,
-     `erase` on such dictionaries;
+  1. rendered dictionaries as `dictOfList (optPairs rows)` with a fixed, duplicate-free list of keys (the rows are the
+     definition of the renderer: `pageRows`, `catRows`, `namesRows`, `Resources.rows` of Spec/CatalogRules.lean, one
+     row per entry of the shipped type); `get`, `set`, `erase` on such dictionaries;
   2. `kindMatches`: the shipped check found under a key of the rules' tables has the shape the rules' value kind
      asks for -- a closed fact about the REGENERATED term (`F_kind`, kernel evaluation);
   3. the rendered graph: every object number of the document denotes its rendered dictionary (with the optional
@@ -16,7 +17,7 @@ open Parsley.CatalogRules (Doc Node Nodes PageOpts CatOpts Mutation Where kType 
   pageDict nodeDict catalogDict arrOf optEnt DictKind ValKind keyTable requiredKeys forbiddenKeys
   kCropBox kLastModified kRotate kTabs kUserUnit kID kAnnots kVersion kPageMode kPageLayout kLang kNeedsRendering
   kPageLabels kDests kEmbeddedFiles kOutlines kMetadata kOpenAction nCatalog nPage nTemplate pageModes pageLayouts
-  tabOrders nameAt Rect Num Date Tree namesDict)
+  tabOrders nameAt Rect Num Date Tree namesDict pageRows catRows namesRows rowsObjL)
 
 /-! ### 1. dictionaries with optional rows -/
 
@@ -192,32 +193,17 @@ theorem get_erase_eq (k : Bytes) : ∀ l : ObjL, l.keys.Nodup → (CatalogRules.
 
 /-! the rendered dictionaries as row lists -/
 
-def pageRows (o : PageOpts) (parent : Option Obj) (typ : Bytes) : List (Bytes × Option Obj) :=
-  [(kAnnots, o.annots.map fun rs => .arr (arrOf (rs.map fun r => Obj.ref r 0))),
-   (kCropBox, o.cropBox.map Rect.obj), (kID, o.id.map Obj.str), (kLastModified, o.lastModified.map Date.obj),
-   (kMediaBox, o.mediaBox.map Rect.obj), (kParent, parent), (kRotate, o.rotate.map Obj.int),
-   (kTabs, o.tabs.map fun i => nameAt tabOrders i.val), (kType, some (.name typ)),
-   (kUserUnit, o.userUnit.map Num.obj)]
+theorem rowsObjL_eq : ∀ L : List (Bytes × Option Obj), rowsObjL L = dictOfList (optPairs L)
+  | [] => rfl
+  | (k, v) :: t => by rw [dictOfList_optPairs_cons, ← rowsObjL_eq t]; rfl
 
 def nodeRows (count : Int) (kids : Nodes) (parent : Option Obj) : List (Bytes × Option Obj) :=
   [(kCount, some (.int count)), (CatalogRules.kKids, some (.arr (arrOf kids.refs))), (kParent, parent),
    (kType, some (.name kPages))]
 
-def catRows (d : Doc) : List (Bytes × Option Obj) :=
-  let c := d.cat
-  [(kLang, c.lang.map Obj.str), (kMetadata, c.metadata.map fun i => Obj.ref i 0), (CatalogRules.kNames, namesDict c),
-   (kNeedsRendering, c.needsRendering.map Obj.bool),
-   (kOpenAction, c.openAction.map fun a => if a then .arr .nil else .dict .nil),
-   (kOutlines, c.outlines.map fun i => Obj.ref i 0),
-   (kPageLabels, c.pageLabels.map (Tree.obj CatalogRules.kNums Obj.int)),
-   (kPageLayout, c.pageLayout.map fun i => nameAt pageLayouts i.val),
-   (kPageMode, c.pageMode.map fun i => nameAt pageModes i.val),
-   (kPages, some (.ref d.rootId 0)), (kType, some (.name nCatalog)), (kVersion, c.version.map Obj.name)]
-
 theorem pageDict_eq (o : PageOpts) (parent : Option Obj) (typ : Bytes) :
     pageDict o parent typ = .dict (dictOfList (optPairs (pageRows o parent typ))) := by
-  simp only [pageRows, dictOfList_optPairs_cons, optPairs, dictOfList]
-  rfl
+  rw [← rowsObjL_eq]; rfl
 
 theorem nodeDict_eq (count : Int) (kids : Nodes) (parent : Option Obj) :
     nodeDict count kids parent = .dict (dictOfList (optPairs (nodeRows count kids parent))) := by
@@ -225,23 +211,25 @@ theorem nodeDict_eq (count : Int) (kids : Nodes) (parent : Option Obj) :
   rfl
 
 theorem catalogDict_eq (d : Doc) : catalogDict d = .dict (dictOfList (optPairs (catRows d))) := by
-  simp only [catRows, dictOfList_optPairs_cons, optPairs, dictOfList]
-  rfl
+  rw [← rowsObjL_eq]; rfl
 
 theorem pageRows_keys (o : PageOpts) (parent : Option Obj) (typ : Bytes) :
     (pageRows o parent typ).map (·.1) =
-      [kAnnots, kCropBox, kID, kLastModified, kMediaBox, kParent, kRotate, kTabs, kType, kUserUnit] := rfl
+      CatalogRules.pageKeys := rfl
 theorem nodeRows_keys (count : Int) (kids : Nodes) (parent : Option Obj) :
     (nodeRows count kids parent).map (·.1) = [kCount, CatalogRules.kKids, kParent, kType] := rfl
 theorem catRows_keys (d : Doc) :
-    (catRows d).map (·.1) = [kLang, kMetadata, CatalogRules.kNames, kNeedsRendering, kOpenAction, kOutlines,
-      kPageLabels, kPageLayout, kPageMode, kPages, kType, kVersion] := rfl
+    (catRows d).map (·.1) = CatalogRules.catKeys := rfl
+theorem namesRows_keys (c : CatOpts) : (namesRows c).map (·.1) = CatalogRules.nameTreeKeys := rfl
+theorem resRows_keys (r : CatalogRules.Resources) : r.rows.map (·.1) = CatalogRules.resourceKeys := rfl
 
 theorem pageRows_nodup (o : PageOpts) (parent : Option Obj) (typ : Bytes) :
     ((pageRows o parent typ).map (·.1)).Nodup := by rw [pageRows_keys]; decide
 theorem nodeRows_nodup (count : Int) (kids : Nodes) (parent : Option Obj) :
     ((nodeRows count kids parent).map (·.1)).Nodup := by rw [nodeRows_keys]; decide
 theorem catRows_nodup (d : Doc) : ((catRows d).map (·.1)).Nodup := by rw [catRows_keys]; decide
+theorem namesRows_nodup (c : CatOpts) : ((namesRows c).map (·.1)).Nodup := by rw [namesRows_keys]; decide
+theorem resRows_nodup (r : CatalogRules.Resources) : (r.rows.map (·.1)).Nodup := by rw [resRows_keys]; decide
 
 /-! ### 2. the shipped entry of a key has the shape of the rules' value kind -/
 
@@ -269,6 +257,27 @@ def nameDictMatches (c : Chk) : Bool :=
         | none => false
   | _ => false
 
+/-- a stream | an array of streams -/
+def contentsChk : Chk :=
+  .disj Attr.dflt (.cons [] .required (.stream Attr.dflt .nil)
+                  (.cons [] .required (.array Attr.dflt (.stream Attr.dflt .nil) none) .nil))
+
+/-- /Resources: a dictionary type without attributes, keys pairwise distinct, none required, the seven dictionary
+    entries of the rules are optional generic dictionaries and /ProcSet an optional generic array -/
+def resourcesMatches (c : Chk) : Bool :=
+  match res c with
+  | .dict a ents =>
+    decide (a = Attr.dflt) && decide ((ents.toList.map (·.1)).Nodup) &&
+      ents.toList.all (fun e => e.2.1 != .required) &&
+      (CatalogRules.resourceDictKeys.all fun k =>
+        match findEnt ents k with
+        | some (opt, c'') => decide (opt = .optional) && decide (res c'' = .dict Attr.dflt .nil)
+        | none => false) &&
+      (match findEnt ents CatalogRules.kProcSet with
+        | some (opt, c'') => decide (opt = .optional) && decide (res c'' = .array Attr.dflt (.any Attr.dflt) none)
+        | none => false)
+  | _ => false
+
 def kindMatches : ValKind → Chk → Bool
   | .nameIs n, c => isPrim (res c) .name .allowed (some (names [n]))
   | .nameIn l, c => isPrim (res c) .name .allowed (some (names l))
@@ -280,6 +289,11 @@ def kindMatches : ValKind → Chk → Bool
   | .rect, c => decide (res c = .array Attr.dflt numberChk (some 4))
   | .date, c => isPrim (res c) .string .allowed (some .date)
   | .array, c => decide (res c = .array Attr.dflt (.any Attr.dflt) none)
+  | .dict, c => decide (res c = .dict Attr.dflt .nil)
+  | .stream, c => decide (res c = .stream Attr.dflt .nil)
+  | .arrayOfDict, c => decide (res c = .array Attr.dflt (.dict Attr.dflt .nil) none)
+  | .contents, c => decide (res c = contentsChk)
+  | .resources, c => resourcesMatches c
   | .arrayOrDict, c => decide (res c = arrayOrDictChk)
   | .numTree, c => isAny (res c) .allowed (some (.numTree TC.kNums))
   | .nameDict, c => nameDictMatches c
@@ -328,7 +342,7 @@ def treeGraph (d : Doc) : Graph := ((d.rootId, 0), nodeDict d.count d.kids none)
 
 theorem graph_split (d : Doc) :
     d.graph = (treeGraph d) ++ (CatalogRules.optDef d.cat.outlines (.dict .nil) ++
-      CatalogRules.optDef d.cat.metadata (.stream .nil 0 [])) := by
+      (CatalogRules.optDef d.cat.metadata (.stream .nil 0 []) ++ CatalogRules.optDef d.cat.x.dests (.dict .nil))) := by
   simp [Doc.graph, treeGraph, List.append_assoc]
 
 theorem tree_agree (d : Doc) (hnd : (d.rootId :: d.kids.ids).Nodup) :
@@ -363,21 +377,32 @@ theorem ok_facts (d : Doc) (hok : d.ok = true) :
     (d.rootId :: d.kids.ids).Nodup ∧
     (∀ i, d.cat.outlines = some i → i ∉ d.rootId :: d.kids.ids) ∧
     (∀ i, d.cat.metadata = some i → i ∉ d.rootId :: d.kids.ids) ∧
-    (∀ i j, d.cat.outlines = some i → d.cat.metadata = some j → i ≠ j) := by
+    (∀ i j, d.cat.outlines = some i → d.cat.metadata = some j → i ≠ j) ∧
+    (∀ i, d.cat.x.dests = some i → i ∉ d.rootId :: d.kids.ids) ∧
+    (∀ i j, d.cat.outlines = some i → d.cat.x.dests = some j → i ≠ j) ∧
+    (∀ i j, d.cat.metadata = some i → d.cat.x.dests = some j → i ≠ j) := by
   have h := nodup_of_nodupB _ hok
-  have h' : ((d.rootId :: d.kids.ids) ++ (CatalogRules.optId d.cat.outlines ++ CatalogRules.optId d.cat.metadata)).Nodup := by
+  have h' : ((d.rootId :: d.kids.ids) ++ (CatalogRules.optId d.cat.outlines ++
+      (CatalogRules.optId d.cat.metadata ++ CatalogRules.optId d.cat.x.dests))).Nodup := by
     simpa [Doc.ids, List.append_assoc] using h
   rw [List.nodup_append] at h'
-  refine ⟨h'.1, ?_, ?_, ?_⟩
+  have hB := h'.2.1
+  refine ⟨h'.1, ?_, ?_, ?_, ?_, ?_, ?_⟩
   · intro i hi hm
     exact h'.2.2 i hm i (by simp [hi, CatalogRules.optId]) rfl
   · intro i hi hm
     exact h'.2.2 i hm i (by simp [hi, CatalogRules.optId]) rfl
   · intro i j hi hj e
-    have := h'.2.1
-    rw [hi, hj] at this
-    simp [CatalogRules.optId] at this
-    exact this e
+    rw [hi, hj] at hB
+    cases hd : d.cat.x.dests <;> simp [CatalogRules.optId, hd] at hB <;> simp_all
+  · intro i hi hm
+    exact h'.2.2 i hm i (by simp [hi, CatalogRules.optId]) rfl
+  · intro i j hi hj e
+    rw [hi, hj] at hB
+    cases hd : d.cat.metadata <;> simp [CatalogRules.optId, hd] at hB <;> simp_all
+  · intro i j hi hj e
+    rw [hi, hj] at hB
+    cases hd : d.cat.outlines <;> simp [CatalogRules.optId, hd] at hB <;> simp_all
 
 theorem graph_lookup_root (d : Doc) :
     Graph.lookup d.graph (d.rootId, 0) = some (nodeDict d.count d.kids none) := by
@@ -420,7 +445,26 @@ theorem graph_lookup_metadata (d : Doc) (hok : d.ok = true) (i : Nat) (hi : d.ca
   cases ho : d.cat.outlines with
   | none => simp [CatalogRules.optDef, Graph.lookup]
   | some j =>
-    have : j ≠ i := f.2.2.2 j i ho hi
+    have : j ≠ i := f.2.2.2.1 j i ho hi
     simp [CatalogRules.optDef, Graph.lookup, this]
+
+theorem graph_lookup_dests (d : Doc) (hok : d.ok = true) (i : Nat) (hi : d.cat.x.dests = some i) :
+    Graph.lookup d.graph (i, 0) = some (.dict .nil) := by
+  have f := ok_facts d hok
+  rw [graph_split, lookup_append, tree_lookup_none d i (f.2.2.2.2.1 i hi), hi]
+  cases ho : d.cat.outlines with
+  | none =>
+    cases hm : d.cat.metadata with
+    | none => simp [CatalogRules.optDef, Graph.lookup]
+    | some k =>
+      have : k ≠ i := f.2.2.2.2.2.2 k i hm hi
+      simp [CatalogRules.optDef, Graph.lookup, this]
+  | some j =>
+    have hj : j ≠ i := f.2.2.2.2.2.1 j i ho hi
+    cases hm : d.cat.metadata with
+    | none => simp [CatalogRules.optDef, Graph.lookup, hj]
+    | some k =>
+      have : k ≠ i := f.2.2.2.2.2.2 k i hm hi
+      simp [CatalogRules.optDef, Graph.lookup, this, hj]
 
 end Parsley.C10
